@@ -44,6 +44,7 @@ Record dcase := mkDc {
   dc_ready_ms : option Z;      (* ms from start to the first login redirect to the healthy document's
                                   authorization endpoint (direct: to the return of initializeMetadata
                                   with initComplete closed); None: did not happen while the harness waited *)
+  dc_ready_loc : N;            (* where that redirect went (0 when direct or none) *)
   dc_waited_ms : Z;            (* how long the harness waited for that *)
   dc_init_hits : N;            (* discovery requests seen by then *)
   dc_steps : list obs_step;    (* operations after that, in order *)
@@ -81,18 +82,37 @@ Definition full_doc (d : doc) : bool := negb (N.eqb (d_issuer d) 0) && negb (N.e
 
 Definition heal_applies (c : dcase) : bool := forallb is_fault (dc_script c) && full_doc (dc_healthy c).
 
-(* B(n): modelled bound, linear in the number of failures: 16 s of pauses per
-   failure plus the client's timeout per failure (a slow answer costs that much) *)
+(* The retry schedule written out as arithmetic: with n failures ahead, a round
+   of max_retries attempts either meets the healthy provider (n < max_retries:
+   n pauses, n fetches that may each take the client's timeout) or fails
+   completely and is followed by the outer pause of round k.  `fuel` bounds the
+   unrolling (one round consumes at least one failure). *)
+Fixpoint sched (fuel k n : nat) (timeout : Z) : Z :=
+  match fuel with
+  | O => 0
+  | S f =>
+      if Nat.ltb n max_retries then delays_from 0 n + Z.of_nat n * timeout
+      else delays_from 0 max_retries + Z.of_nat max_retries * timeout + delay k
+           + sched f (S k) (n - max_retries) timeout
+  end.
+
+(* modelled time by which serving must have started after n failures *)
+Definition heal_time (n : nat) (timeout : Z) : Z := sched (S n) 0 n timeout.
+
+(* B(n): linear bound on heal_time: 16 s of pauses per failure plus the
+   client's timeout per failure (a slow answer costs that much) *)
 Definition heal_rate : Z := 16 * sec.
 Definition heal_bound (n : nat) (timeout : Z) : Z := Z.of_nat n * (heal_rate + timeout).
 
-(* wall-clock allowance used on observations: B * 5/4 + 5 s (+ one timeout for the successful fetch), in ms *)
+(* wall-clock allowance applied to observations, in ms: heal_time * 9/8, one more
+   timeout for the successful fetch, and 4 s *)
 Definition heal_allowance_ms (n : nat) (timeout : Z) : Z :=
-  (heal_bound n timeout * 5 / 4 + timeout + 5 * sec) / 1000000.
+  (heal_time n timeout * 9 / 8 + timeout + 4 * sec) / 1000000.
 
 Definition heal_ok (c : dcase) : bool :=
   match dc_ready_ms c with
   | Some t => Z.leb t (heal_allowance_ms (length (dc_script c)) (dc_timeout c))
+              && (dc_direct c || N.eqb (dc_ready_loc c) (d_auth (dc_healthy c)))
   | None => false
   end.
 
